@@ -82,14 +82,13 @@ func (s *Scanner) Scan(ctx context.Context, r *scan.Request) (result scan.Result
 		return
 	}
 	defer conn.Close()
-	// wait a maximum of 1 second for normal confirmation of connection termination ( FIN,ACK )
-	// on Close() instead of default net.ipv4.tcp_fin_timeout = 60 seconds;
-	// if this time has elapsed, the operating system will discard any unsent or unacknowledged
-	// data, send RST packet and release all socket resources, fine for the scan;
-	// note that in normal case ( FIN,ACK received ) the socket goes to the TIME-WAIT state anyway,
-	// it limits the maximum number of open outbound network connections
-	// so setting net.ipv4.tcp_tw_reuse to 1 is useful
-	if err = conn.(*net.TCPConn).SetLinger(1); err != nil {
+	// do not wait for the normal termination of the connection ( FIN,ACK ) on Close():
+	// the operating system discards any unsent or unacknowledged data, sends a RST packet
+	// and releases all socket resources at once, fine for the scan;
+	// a positive linger time would make Close() block until the peer has acknowledged
+	// the FIN (up to that time if the peer is gone or a tarpit), on top of the timeouts,
+	// and would leave the socket in the TIME-WAIT state
+	if err = conn.(*net.TCPConn).SetLinger(0); err != nil {
 		return
 	}
 
